@@ -27,8 +27,14 @@ type sink struct {
 }
 
 // Reserve and Commit make the sink a Reserver/Committer, as the emulator's trace consumers are.
-func (s *sink) Reserve(n int) { s.reserved += n }
-func (s *sink) Commit()       { s.commits++ }
+// Like bytes.Buffer.Grow, a negative request is a programming error of the caller.
+func (s *sink) Reserve(n int) {
+	if n < 0 {
+		panic("sink: negative Reserve")
+	}
+	s.reserved += n
+}
+func (s *sink) Commit() { s.commits++ }
 
 func (s *sink) Write(p []byte) (int, error) {
 	s.b = append(s.b, p...)
@@ -388,6 +394,42 @@ func LoggerLongRun(maxBudget int) {
 	budget := vp.U64("budget")
 	vp.Assume(budget <= uint64(maxBudget))
 	target := uint32(0x800000) | uint32(pre.PC+2) // never reached
+	log := &sink{}
+	s1.Logger, s2.Logger = nil, log
+	var r1, r2 bool
+	f1 := vp.Try(func() { r1 = s1.RunUntil(target, budget) })
+	f2 := vp.Try(func() { r2 = s2.RunUntil(target, budget) })
+	s2.Logger = nil
+	vp.Assert("same-completion", f1 == f2)
+	if f1 || f2 {
+		return
+	}
+	vp.Assert("same-result", r1 == r2)
+	vp.Assert("same-final-registers-flags-and-cycle-totals", cpuenv.FromMain(&s1.CPU) == cpuenv.FromMain(&s2.CPU))
+	vp.Assert("same-final-memory", vp.BytesEqual(cpuenv.MainMem, cpuenv.SpecMem))
+	vp.Assert("logger-committed-once", log.commits == 1)
+	vp.Reach("end")
+}
+
+// LoggerAnyBudget: k NOPs followed by the target, traced through a reserving logger, for *any*
+// 64-bit cycle budget (the budget only decides after how many NOPs the run stops; the space the
+// logger is asked to reserve is computed from it).
+func LoggerAnyBudget(k int) {
+	s1, s2 := cpuenv.Sys, sys2
+	pre := cpuenv.ArbitraryPre(1, 1, 0)
+	pre.Interrupt = 0
+	pre.RK, pre.RDBR = 0x80, 0x7E
+	vp.Assume(pre.PC < 0xFF00)
+	pre.ToMain(&s1.CPU)
+	pre.ToMain(&s2.CPU)
+	vp.FillBytes("mem", cpuenv.MainMem)
+	vp.FillBytes("mem", cpuenv.SpecMem)
+	for i := 0; i < k; i++ {
+		a := uint32(0x800000) | uint32(pre.PC+uint16(i))
+		cpuenv.MainMem[a], cpuenv.SpecMem[a] = 0xEA, 0xEA
+	}
+	target := uint32(0x800000) | uint32(pre.PC+uint16(k))
+	budget := vp.U64("budget")
 	log := &sink{}
 	s1.Logger, s2.Logger = nil, log
 	var r1, r2 bool
